@@ -124,7 +124,7 @@ def rats(v):
 
 
 def fits_all(*arrs):
-    return all(core.fits(F(float(x))) for a in arrs for x in np.ravel(a))
+    return all(np.isfinite(float(x)) and core.fits(F(float(x))) for a in arrs for x in np.ravel(a))
 
 
 class FlowdynRaised(Exception):
@@ -152,7 +152,11 @@ def run_rhs_table(xf_or_mesh, data, recon_name, bcl, bcr, flux, source=None):
     except Exception as ex:
         raise FlowdynRaised("%s: %s" % (type(ex).__name__, str(ex)[:120]))
     pL, pR, fl = model.calls[-1]
-    return m, np.array(R[0], dtype=float), pL[0], pR[0], fl[0], model
+    Rr = np.array(R[0], dtype=float)
+    if not (np.all(np.isfinite(Rr)) and np.all(np.isfinite(pL[0])) and np.all(np.isfinite(pR[0])) and np.all(np.isfinite(fl[0]))):
+        # finite dyadic data and a finite table flux can only give finite results: NaN/inf is an observation (a failed case)
+        raise FlowdynRaised("non-finite face state / residual from finite data")
+    return m, Rr, pL[0], pR[0], fl[0], model
 
 
 def raised_record(ex, **ctx):
